@@ -1,5 +1,6 @@
 (* C09 — deriving operations are pure: inputs unchanged, results own their storage. *)
 From Anytype Require Import Base FloatBits Value Sorting Heap Slice HeapProofs.
+From Anytype Require Import Footprint DerivedIndependence.
 Local Open Scope Z_scope.
 
 (* (1) heap level: a deriving/observing operation (Concat, SubList, Merge, Pluck, Keys, Values, Slice, Dict, Clone, Equals,
@@ -39,8 +40,33 @@ Theorem C09_prefix_concat_refuted :
   vis c4 2 = [HInt 1; HInt 2; HInt 3; HInt 9] /\ vis c5 2 = [HInt 1; HInt 2; HInt 3; HInt 7] /\ ~ Own c4.
 Proof. exact old_concat_refuted. Qed.
 
+
+(* (4) in the heap model, for every operation that hands out a NEW container (SubList, Concat, Merge, Pluck, Keys, Values, Clone):
+   the container is a cell that did not exist before; whatever sequence of Add/Insert/Replace/Delete/Pop/Clear/Reverse/Sort/Set/
+   Unset is later applied to the result leaves every earlier cell - the receiver's and the argument's top-level slots included -
+   unchanged; and whatever is applied to earlier containers leaves the result's top-level slots unchanged. *)
+Theorem C09_created_is_fresh : forall s o out, creating_op o = true -> snd (step_core s o) = Ret (OV out) ->
+  forall id', (out = HL id' \/ out = HO id') -> (length (st_heap s) <= id' < length (st_heap (fst (step_core s o))))%nat.
+Proof. exact created_is_fresh. Qed.
+Theorem C09_mutating_the_result_leaves_old_cells : forall s o out r ops,
+  creating_op o = true -> snd (step_core s o) = Ret (OV out) -> (exists id', out = HL id' \/ out = HO id') ->
+  r = length (st_env s) -> Forall (fun m => basic_mutator m = Some r) ops ->
+  forall id, (id < length (st_heap s))%nat ->
+    nth_error (st_heap (exec (fst (step s o)) ops)) id = nth_error (st_heap s) id.
+Proof. exact mutating_the_result_leaves_old_cells. Qed.
+Theorem C09_mutating_old_containers_leaves_the_result : forall s o out ops,
+  creating_op o = true -> snd (step_core s o) = Ret (OV out) ->
+  (forall r v id, nth_error (st_env s) r = Some v -> (v = HL id \/ v = HO id) -> (id < length (st_heap s))%nat) ->
+  Forall (fun m => exists r0, basic_mutator m = Some r0 /\ (r0 < length (st_env s))%nat) ops ->
+  forall id', (out = HL id' \/ out = HO id') ->
+    nth_error (st_heap (exec (fst (step s o)) ops)) id' = nth_error (st_heap (fst (step s o))) id'.
+Proof. exact mutating_old_containers_leaves_the_result. Qed.
+
 Print Assumptions C09_no_write.
 Print Assumptions C09_results_own_storage.
 Print Assumptions C09_step.
 Print Assumptions C09_sequence_model_independent.
 Print Assumptions C09_prefix_concat_refuted.
+Print Assumptions C09_created_is_fresh.
+Print Assumptions C09_mutating_the_result_leaves_old_cells.
+Print Assumptions C09_mutating_old_containers_leaves_the_result.
